@@ -349,18 +349,28 @@ def applied_slot(term):
     return None
 
 
-def output_leaves(term):
+def output_leaves(term, extra_conds=None):
     """Decompose an output expression into (container shape, leaves) where leaves are element expressions."""
     # self.origin(<gen>) / self.t(**kwargs) / [comp] / {comp} / generator
     if term[0] == "call" and term[1] in (C.sattr("origin"), C.sattr("t")):
         if len(term[2]) == 1 and not term[3]:
             inner = term[2][0]
-            sh, leaves, conds = output_leaves(inner)
+            sh, leaves, conds = output_leaves(inner, extra_conds)
             return ("ctor:" + term[1][2] + "(" + sh + ")", leaves, conds)
         if not term[2] and len(term[3]) == 1 and term[3][0][0] is None:
-            sh, leaves, conds = output_leaves(term[3][0][1])
+            sh, leaves, conds = output_leaves(term[3][0][1], extra_conds)
             return ("ctor:" + term[1][2] + "(**" + sh + ")", leaves, conds)
         return ("ctor:" + term[1][2] + "(?)", None, ())
+    # a container filled by an explicit loop (the evaluator accumulates stores/appends into the local display)
+    if term[0] == "dict" and term[1] and all(k is not None for k, _ in term[1]):
+        leaves = []
+        for k, v in term[1]:
+            leaves += [("k", k), ("v", v)]
+        return ("dictloop", leaves, tuple(extra_conds or ()))
+    if term[0] == "list" and term[1] and not any(e[0] == "star" for e in term[1]):
+        return ("listloop", [("e", e) for e in term[1]], tuple(extra_conds or ()))
+    if term[0] in ("dict", "list") and not term[1]:
+        return ("empty", [], ())
     if term[0] == "comp":
         elt = term[2]
         if elt[0] == "pair":
